@@ -28,6 +28,12 @@ HMoveAlone(I, h, idle, allowed(_)) ==
 \* C04: a cycle without any move ends on a 1-opt assignment
 HStagnationIsOneOpt(I, h, idle) ==
   \A k \in HSteps(I, h) : HA(I, h, idle, k) = HA(I, h, idle, k + 1) => OneOpt(I, HA(I, h, idle, k))
+\* C06 (DSA moves): a value held at boundary k + 1 that differs from the one at k is a best response to what the neighbours
+\* held (and sent) at boundary k
+HMovesBestResponse(I, h) ==
+  \A c \in HActive(I) : \A k \in 1..(Len(h[c]) - 1) :
+     (h[c][k + 1] # h[c][k] /\ (\A n \in Nbrs(I, c) : Len(h[n]) >= k)) =>
+        h[c][k + 1] \in ArgBestLocal(I, c, [v \in VarSet(I) |-> IF v = c THEN h[c][k] ELSE IF v \in Nbrs(I, c) THEN h[v][k] ELSE 1])
 \* witnesses (non-vacuity)
 HMoves(I, h, idle) == Cardinality({k \in HSteps(I, h) : HA(I, h, idle, k) # HA(I, h, idle, k + 1)})
 HStagnations(I, h, idle) == Cardinality({k \in HSteps(I, h) : HA(I, h, idle, k) = HA(I, h, idle, k + 1)})
